@@ -161,10 +161,10 @@ def export_graph(cfg_text, name, env, workers=16, timeout=1500, coverage=False):
 
 
 def cfg_text(na, nw, nf, alphabet, ranges, nset, maxits, init, sthr="SThrHalf", export=True, invariants=(), props=(),
-             tdmasks="AllMasks", dfree=False, nxt="Next", boxes="NoBoxes"):
+             tdmasks="AllMasks", dfree=False, nxt="Next", boxes="NoBoxes", zero_exact=False):
     lines = ["CONSTANTS", f"  NA = {na}", f"  NW = {nw}", f"  NF = {nf}", f"  Alphabet <- {alphabet}",
              f"  Ranges <- {ranges}", f"  NSet <- {nset}", f"  MaxIts <- {maxits}", f"  TdMasks <- {tdmasks}", f"  Boxes <- {boxes}",
-             f"  InitSel <- {init}", f"  SThr <- {sthr}", f"  DFree = {'TRUE' if dfree else 'FALSE'}",
+             f"  InitSel <- {init}", f"  SThr <- {sthr}", f"  DFree = {'TRUE' if dfree else 'FALSE'}", f"  ZeroExact = {'TRUE' if zero_exact else 'FALSE'}",
              f"  Export = {'TRUE' if export else 'FALSE'}",
              "INIT Init", f"NEXT {nxt}", "VIEW View", "CHECK_DEADLOCK FALSE"]
     if export:
@@ -559,7 +559,7 @@ def validate_traces(traces, consts, name, extra_cfg=""):
         json.dump(traces, f)
     cfg = os.path.join(wd, "TraceHvsrObject_run.cfg")
     with open(cfg, "w") as f:
-        f.write("CONSTANTS\n" + consts + ("" if "DFree" in consts else "  DFree = FALSE\n") + ("" if "Boxes" in consts else "  Boxes <- NoBoxes\n") +
+        f.write("CONSTANTS\n" + consts + ("" if "DFree" in consts else "  DFree = FALSE\n") + ("" if "ZeroExact" in consts else "  ZeroExact = FALSE\n") + ("" if "Boxes" in consts else "  Boxes <- NoBoxes\n") +
                 "  Export = FALSE\n" +
                 "INIT TraceInit\nNEXT TraceNext\nVIEW TraceView\nCHECK_DEADLOCK FALSE\nCONSTRAINT Accepted\n" + extra_cfg)
     res = tlc("TraceHvsrObject", cfg=cfg[:-4], workers=8, timeout=1200, env={"TRACE_FILE": tf}, workname=f"tlc-{name}")
